@@ -26,6 +26,7 @@ type Dir struct {
 	Net      gopacket.Flow
 	Src, Dst layers.TCPPort
 	Inc      int // incarnation (re-opened 4-tuple), C11 only
+	SynData  int // bytes carried by the SYN
 }
 
 // Pkt is one TCP segment on its way to the sniffer.
@@ -69,6 +70,7 @@ type GenCfg struct {
 	Reopen      bool // re-open 4-tuples (C11)
 	BackJumps   bool // timestamps may jump backwards (C11)
 	ForceLimits bool
+	SynData     bool // SYN segments may carry data
 	Short       bool // bias stream lengths down (many-connection lifecycle runs)
 }
 
@@ -202,8 +204,15 @@ func Generate(c *sim.Ctx, cfg GenCfg) *Plan {
 				var sents []sent
 				t := start + int64(side)*50_000
 				emit := func(pk *Pkt, at int64) { sents = append(sents, sent{pk, at}) }
-				emit(&Pkt{Dir: d.Idx, Seq: d.ISN, SYN: true, Kind: "syn"}, t)
-				for off := 0; off < n; {
+				synData := 0
+				if cfg.SynData && n > 0 && c.Chance(120) {
+					// TCP Fast Open style: the SYN carries the first bytes
+					synData = 1 + c.Draw(min(n, segMax))
+					c.Fault("syn_carries_data")
+					d.SynData = synData
+				}
+				emit(&Pkt{Dir: d.Idx, Seq: d.ISN, SYN: true, Len: synData, Kind: "syn"}, t)
+				for off := synData; off < n; {
 					l := 1 + c.Draw(segMax)
 					if off+l > n {
 						l = n - off
